@@ -54,7 +54,7 @@ func genMerkleLen(t *rapid.T, maxN int) int {
 
 func TestC35(t *testing.T) {
 	rec := evi.New(t, "C35", evi.Exploration,
-		"lists of 0..N random byte-string items (lengths biased to 2^k-2..2^k+2, k<=9; items 0..64 bytes, duplicates allowed); oracle = independent recursive reference construction; non-trivial = list length >= 3 (at least one unbalanced split decision); distinct by (length, first item bytes, root)")
+		"lists of 0..N random byte-string items (lengths biased to 2^k-2..2^k+2, k<=9; items 0..64 bytes plus, in a third of the cases, 1-3 transaction-sized items of 2^k-2..2^k+2 bytes, k<=14; duplicates allowed), a deterministic sweep of every list length and of every item size 0..2100 and around 2^12..2^17; oracle = independent recursive reference construction, plus the metamorphic relation that flipping any bit of any item changes the root; non-trivial = list length >= 3 (at least one unbalanced split decision); distinct by (length, first item bytes, root)")
 	defer rec.Finish()
 	rec.Assume("blake2b-256 from golang.org/x/crypto is trusted by both sides")
 	maxN := rec.Pick(520, 1100)
@@ -80,6 +80,40 @@ func TestC35(t *testing.T) {
 	}
 	rec.SetExtra("lengths_swept_exhaustively", maxN+1)
 
+	// deterministic sweep over ITEM sizes (real Byron items are whole transactions / proofs,
+	// far larger than a few bytes): 1-3 item lists with every size 0..2100 and 2^k-2..2^k+2, k<=17
+	sizes := []int{}
+	for sz := 0; sz <= 2100; sz++ {
+		sizes = append(sizes, sz)
+	}
+	for k := 12; k <= 17; k++ {
+		for d := -2; d <= 2; d++ {
+			sizes = append(sizes, 1<<k+d)
+		}
+	}
+	for _, sz := range sizes {
+		mk := func(seed byte) []byte {
+			b := make([]byte, sz)
+			for i := range b {
+				b[i] = byte(i*7) + seed
+			}
+			return b
+		}
+		for _, items := range [][][]byte{{mk(1)}, {mk(2), {9}}, {{9}, mk(3), mk(4)}} {
+			got := byron.MerkleRoot(items)
+			want := refMerkle(items)
+			rec.Eval()
+			rec.NonTrivial(fmt.Sprintf("size-sweep size=%d n=%d", sz, len(items)), nil)
+			if !bytes.Equal(got[:], want[:]) {
+				rec.Violation(fmt.Sprintf("size-sweep:n=%d", len(items)),
+					fmt.Sprintf("MerkleRoot of %d items with an item of %d bytes = %x, reference = %x", len(items), sz, got[:], want[:]),
+					map[string]any{"n": len(items), "item_size": sz, "items": "item bytes b[i] = 7*i + seed"})
+				break
+			}
+		}
+	}
+	rec.SetExtra("item_sizes_swept", len(sizes))
+
 	rec.Check(func(rt *rapid.T) {
 		n := genMerkleLen(rt, maxN)
 		dup := rapid.Bool().Draw(rt, "dups")
@@ -90,6 +124,23 @@ func TestC35(t *testing.T) {
 				continue
 			}
 			items[i] = rapid.SliceOfN(rapid.Byte(), 0, 64).Draw(rt, "item")
+		}
+		// a few items of realistic (transaction-sized) length, sizes biased to 2^k-2..2^k+2
+		maxSize := 0
+		if n > 0 && rapid.IntRange(0, 2).Draw(rt, "bigItems") == 0 {
+			for j := rapid.IntRange(1, 3).Draw(rt, "nBig"); j > 0; j-- {
+				sz := 1<<rapid.IntRange(6, 14).Draw(rt, "bigPow") + rapid.IntRange(-2, 2).Draw(rt, "bigDelta")
+				b := make([]byte, sz)
+				fill := rapid.SliceOfN(rapid.Byte(), 1, 8).Draw(rt, "bigFill")
+				for i := range b {
+					b[i] = fill[i%len(fill)] + byte(i>>8)
+				}
+				items[rapid.IntRange(0, n-1).Draw(rt, "bigAt")] = b
+				if sz > maxSize {
+					maxSize = sz
+				}
+			}
+			rec.Class("has_large_item")
 		}
 		got := byron.MerkleRoot(items)
 		want := refMerkle(items)
@@ -111,6 +162,27 @@ func TestC35(t *testing.T) {
 			}
 			rec.NonTrivial(fmt.Sprintf("n=%d first=%x root=%x", n, first, want[:8]),
 				map[string]any{"n": n, "first_item": evi.Hex(first), "root": evi.Hex(want[:])})
+		}
+		// metamorphic: changing one bit anywhere in one item changes the root
+		if n > 0 {
+			at := rapid.IntRange(0, n-1).Draw(rt, "flipItem")
+			if len(items[at]) > 0 {
+				mut := make([][]byte, n)
+				copy(mut, items)
+				b := append([]byte(nil), items[at]...)
+				pos := len(b) - 1 - rapid.IntRange(0, min(len(b)-1, 2)).Draw(rt, "flipFromEnd")
+				if rapid.Bool().Draw(rt, "flipAnywhere") {
+					pos = rapid.IntRange(0, len(b)-1).Draw(rt, "flipPos")
+				}
+				b[pos] ^= 1 << rapid.IntRange(0, 7).Draw(rt, "flipBit")
+				mut[at] = b
+				rec.Eval()
+				if r2 := byron.MerkleRoot(mut); bytes.Equal(r2[:], got[:]) {
+					rec.Fail(rt, "root-ignores-item-byte",
+						fmt.Sprintf("MerkleRoot of %d items is unchanged (%x) after flipping a bit of byte %d of item %d (%d bytes)", n, got[:], pos, at, len(b)),
+						map[string]any{"n": n, "item": at, "item_len": len(b), "byte": pos})
+				}
+			}
 		}
 		if !bytes.Equal(got[:], want[:]) {
 			hexItems := make([]string, len(items))
